@@ -460,6 +460,55 @@ def _scope_cases(max_depth=4):
 SCOPES = _scope_cases()
 
 
+def _form_cases():
+    """every statement form, in its smallest and its degenerate shapes (empty blocks, optional
+    parts left out, a block where an operand is expected), in every kind of body: top level, loop,
+    if/else, routine (called from the top level, from a loop, from inside a matrix block), matrix
+    block, loop inside a matrix block.  The compiler may accept or reject each; what it accepts
+    must run without an internal fault."""
+    leaves = [
+        'stage', 'stage row 0', 'stage column 1 2', 'stage row 0 1 column 1', 'stage begin end',
+        'stage begin stage row 0 end', 'stage begin hue 5 end', 'stage all', 'stage default',
+        'get', 'get row 0', 'get column 1', 'get all', 'get "Top"', 'get "Candle"', 'get "Strip"',
+        'get begin end', 'get default',
+        'set "Candle" begin end', 'set "Candle" begin begin end end', 'set "Candle" row 0',
+        'set "Candle" column 9', 'set "Top" begin end', 'set "Top" row 0', 'set "Strip" zone 1',
+        'set "Strip" zone 1 begin end', 'set "Strip" begin end', 'set default', 'set all',
+        'set group "Pole" begin end', 'set "Candle" and "Top" begin end', 'set "Candle" begin end and "Top"',
+        'set "nosuch" begin stage end', 'set "Candle" begin get end', 'set "Candle" begin get all end',
+        'on all', 'off all', 'on "Candle"', 'on "Candle" row 0', 'on "Candle" begin end', 'off default',
+        'on "Strip" zone 1', 'on group "Pole"', 'off location "Home"',
+        'begin end', 'begin begin end end', 'repeat begin break end', 'repeat 0 begin end',
+        'repeat 2 begin end', 'if {1} begin end', 'if {0} begin end else begin end',
+        'repeat all as L begin end', 'repeat group as G begin end', 'repeat location as G begin end',
+        'repeat in "Top" as L begin end', 'repeat in "Top" and group "Pole" as L with i from 1 to 2 begin end',
+        'repeat in group "nosuch" as L begin set L end', 'repeat 3 with i cycle begin end',
+        'repeat with i from 1 to 0 begin end', 'repeat while {0} begin end',
+        'define g begin end g', 'define g with a begin end g 1', 'define g begin return end print [g]',
+        'define g return 5 hue [g]', 'return', 'return 5', 'break',
+        'wait', 'units raw', 'units rgb', 'units logical', 'print', 'println', 'printf ""', 'printf "{}"',
+        'print 1', 'println "x"', 'printf "{}" 1', 'assign v', 'assign v 1', 'define m', 'define m 1',
+        'hue', 'hue 5', 'time 0', 'duration 0', 'time at 8:00', 'breakpoint',
+    ]
+    contexts = [
+        '{S}',
+        'repeat 2 begin {S} end',
+        'if {{1 > 0}} begin {S} end else begin {S} end',
+        'define f begin {S} end f',
+        'define f begin {S} end repeat 2 begin f end',
+        'define f begin {S} end set "Candle" begin f end',
+        'define f begin {S} end set "Candle" begin stage row 1 f f end',
+        'set "Candle" begin {S} end',
+        'set "Candle" begin repeat 2 begin {S} end end',
+        'set "Candle" begin if {{0}} begin {S} end else begin {S} end end',
+        'define f with a begin {S} end f 1 [f 2]',
+    ]
+    return [c.format(S=leaf) for c in contexts for leaf in leaves]
+
+
+FORMS = _form_cases()
+
+
 # the token-level parser model (Model/ParseTok.lean): its theorems belong to C06
 PARSETOK_MODULES = ['Bardolph.Props.C06Parse', 'Bardolph.Proofs.ParseTokBase',
                     'Bardolph.Proofs.ParseTokPrim', 'Bardolph.Proofs.ParseTokRv',
@@ -541,6 +590,9 @@ def main():
         inputs.append(('valid', text))
     for text, expect, _label in SCOPES:
         inputs.append(('valid' if expect == 'accept' else 'rule:break-outside-loop', text))
+    for text in FORMS:
+        inputs.append(('form', text))
+    stats['form_cases'] = len(FORMS)
     fixed_texts = [('rule:' + n, t) for n, t in RULES] + [('nest', t) for t in NESTS] + \
         [('scope', t) for t, _e, _l in SCOPES]
     stats['scope_cases'] = len(SCOPES)
